@@ -253,10 +253,102 @@ def elongated_stream(ctx, nprng, n):
             ctx.violation('elongated:' + sig, what, rp)
 
 
+def position_errors(c0, c1, tol):
+    """deviations of the atoms of c1 from the atoms of the (exact, primitive) crystal c0, in c0's unit coordinates, after
+    the best common shift; None if the two do not describe the same crystal within tol"""
+    T = np.linalg.solve(c0.lattice, c1.lattice)
+    if np.abs(T - np.round(T)).max() > 1e-6 or abs(abs(round(np.linalg.det(np.round(T)))) - 1) > 0: return None
+    if [len(a) for a in c0.basis] != [len(a) for a in c1.basis]: return None
+    T = np.round(T)
+    P1 = [[T @ u for u in atoms] for atoms in c1.basis]
+    k = min(range(len(c0.basis)), key=lambda i: len(c0.basis[i]))
+    for target in c0.basis[k]:
+        s = target - P1[k][0]
+        devs = []
+        for a0, a1 in zip(c0.basis, P1):
+            for u in a1:
+                v = u + s
+                best = min((np.abs((v - w) - np.round(v - w)).max(), j) for j, w in enumerate(a0))
+                if best[0] > tol: devs = None; break
+                w = a0[best[1]]
+                devs.append((v - w) - np.round(v - w))
+            if devs is None: break
+        if devs is not None:
+            devs = np.array(devs)
+            return devs - devs.mean(axis=0)
+    return None
+
+
+def averaging_stream(ctx, nprng, n):
+    """n x 1 x 1 supercells (n = 3, 5, 6, 7: one reduction step merges n copies) whose atoms carry INDEPENDENT noise of a
+    sizeable fraction (0.2-0.4) of the threshold.  reduce() averages the merged copies, so the reduced positions must be
+    CLOSER to the true primitive positions than the input noise (and certainly within it), and the reduced crystal must
+    have the group order / Wyckoff structure of the primitive crystal built directly."""
+    rng = ctx.rng
+    crystal = X.crystal_module()
+    names = ('SC', 'B2', 'HCP-ideal', 'HCP-1.6', 'diamond', 'rocksalt', 'L12', 'omega', 'tet-lowsym', 'honeycomb', 'hBN', 'square-2sp', 'square')
+    pool = [x for x in X.zoo() if x.name in names]
+    for k in range(n):
+        xc = pool[k % len(pool)] if k < 3 * len(pool) else X.random_xc(rng, nprng, maxatoms=4, rotate=0.5, redescribe=0.0, spins_prob=0.0)
+        try:
+            c0 = X.build(xc)
+        except Exception:
+            continue
+        if c0.N != xc.N: continue           # the base description must be primitive
+        d = xc.d
+        nrep = rng.choice((3, 5, 6, 7, 3, 5))
+        ax = rng.randrange(d)
+        S = [[(nrep if (i == j == ax) else int(i == j)) for j in range(d)] for i in range(d)]
+        xs = shuffled(rng, xc.transformed(S))
+        if xs.N > 42: continue
+        thr = rng.choice((1e-8, 1e-6, 1e-5))
+        frac = rng.choice((0.2, 0.3, 0.4))
+        amp = frac * thr
+        basis = [[np.array([float(t) for t in u]) + amp * nprng.uniform(-1, 1, size=d) for u in atoms] for atoms in xs.basis]
+        rp = dict(base=xc.name, supercell_matrix=S, threshold=thr, independent_noise_amplitude=amp, lattice_columns=xs.L.T.tolist(),
+                  basis=[[u.tolist() for u in a] for a in basis],
+                  how='crystal.Crystal(np.array(lattice_columns).T, [[np.array(u) ...]], threshold=threshold); compare with the primitive %s' % xc.name)
+        ctx.count('averaging-stream'); ctx.count('averaging:n=%d' % nrep)
+        ctx.case(('avg', xs.key(), k), nontrivial=True)
+        try:
+            c1 = crystal.Crystal(xs.L, basis, threshold=thr)
+        except Exception as e:
+            ctx.violation('ctor-raises:%s:averaging' % type(e).__name__, 'Crystal(%d-fold supercell of %s with noise %.1f threshold) raises %r' % (nrep, xc.name, frac, e), rp)
+            continue
+        rp.update(out_N=c1.N, out_nG=len(c1.G), out_threshold=c1.threshold, prim_N=c0.N, prim_nG=len(c0.G))
+        if [len(a) for a in c1.basis] != [len(a) for a in c0.basis]:
+            ctx.violation('averaging:atom-counts', '%d-fold supercell of %s, independent noise %.1f threshold: %s atoms per species, primitive %s'
+                          % (nrep, xc.name, frac, [len(a) for a in c1.basis], [len(a) for a in c0.basis]), rp); continue
+        # positions: in supercell units every input coordinate is within amp of the truth, so is any average of copies
+        devs = position_errors(c0, c1, tol=50 * nrep * amp + 1e-9)
+        if devs is None:
+            ctx.violation('averaging:not-same-crystal', '%d-fold supercell of %s: the reduced crystal is not the primitive crystal within 50 x the input noise' % (nrep, xc.name), rp)
+            continue
+        A = np.linalg.solve(xc.L, c0.lattice)          # c0's unit coordinates -> the base description's (Crystal() may have re-described it)
+        devs_super = devs @ A.T; devs_super[:, ax] /= nrep
+        worst = np.abs(devs_super).max()
+        rms = float(np.sqrt((devs_super ** 2).mean()))
+        rp.update(max_position_error_over_noise=worst / amp, rms_position_error_over_noise=rms / amp)
+        if worst > 1.25 * amp:
+            ctx.violation('averaging:position-error-exceeds-noise', '%d-fold supercell of %s: a reduced position is %.2f x the input noise amplitude away from the true '
+                          'primitive position (averaging %d copies must not amplify the noise)' % (nrep, xc.name, worst / amp, nrep), rp)
+            continue
+        if len(devs) >= 3 and rms > 0.62 * amp:        # input rms is 0.577 amp; the average of n >= 3 copies has 0.33 amp or less
+            ctx.violation('averaging:noise-not-reduced', '%d-fold supercell of %s: rms error of the reduced positions %.2f x amplitude, not smaller than the input noise'
+                          % (nrep, xc.name, rms / amp), rp)
+            continue
+        if len(c1.G) != len(c0.G):
+            ctx.violation('averaging:group-order', '%d-fold supercell of %s with independent noise %.1f threshold: |G| = %d, primitive crystal %d'
+                          % (nrep, xc.name, frac, len(c1.G), len(c0.G)), rp)
+        elif wyckoff_profile(c1) != wyckoff_profile(c0):
+            ctx.violation('averaging:wyckoff-structure', '%d-fold supercell of %s: Wyckoff structure differs from the primitive crystal' % (nrep, xc.name), rp)
+
+
 def run(ctx):
     rng = ctx.rng
     nprng = np.random.default_rng(rng.getrandbits(32))
     tie_stream(ctx, nprng, 160 if ctx.quick else 1500)
+    averaging_stream(ctx, nprng, 50 if ctx.quick else 700)
     elongated_stream(ctx, nprng, 45 if ctx.quick else 600)
     nat = X.native_driver(DRV, MODELS) is not None
     if not nat: ctx.note('native driver could not be built: interpreter fallback (few cases)')
